@@ -39,6 +39,60 @@ func runC03(p *load.Program, r *oblig.Report) {
 	// a record of the new generation must not be dropped as stale, nor an old one delivered: the version filter of
 	// FetchMessage (shared with C02.R7)
 	c02ReaderAs(p, r, "C03.R10 records of the current generation are delivered, older ones dropped")
+	c03CoordinatorLookup(p, r)
+}
+
+// c03CoordinatorLookup: the coordinator of a group can move at any time; a member that keeps talking to the old one
+// is told NotCoordinatorForGroup for ever and its partitions are never delivered again. Every connection handed out
+// by (*ConsumerGroup).coordinator is to the address the brokers named in this very call: FindCoordinator lies on
+// every path to a successful return and the address dialled derives from its answer.
+func c03CoordinatorLookup(p *load.Program, r *oblig.Report) {
+	const rule = "C03.R11 the group coordinator is looked up for every generation"
+	fn := p.Func("", "(*ConsumerGroup).coordinator")
+	if fn == nil {
+		r.Lost(rule, "kafka.(*ConsumerGroup).coordinator")
+		return
+	}
+	var find *ssa.Call
+	an.EachInstr(fn, func(ins ssa.Instruction) {
+		if c, ok := ins.(*ssa.Call); ok && (c.Call.IsInvoke() && c.Call.Method.Name() == "findCoordinator") {
+			find = c
+		}
+	})
+	if find == nil {
+		r.Bad(rule, "kafka.(*ConsumerGroup).coordinator → FindCoordinator request", p.Pos(fn.Pos()), "conn.findCoordinator(…)", "not found")
+		return
+	}
+	nOK := 0
+	var bad []string
+	an.EachInstr(fn, func(ins ssa.Instruction) {
+		ret, ok := ins.(*ssa.Return)
+		if !ok || ret.Parent() != fn || len(ret.Results) != 2 {
+			return
+		}
+		v := an.RetVal(ret, 0)
+		if an.IsNilConst(v) || ret.Block() == fn.Recover {
+			return
+		}
+		nOK++
+		if !an.Dominates(find, ret) {
+			bad = append(bad, "the return at "+p.Pos(ret.Pos())+" hands out a connection without a FindCoordinator request in this call")
+			return
+		}
+		shape := clean(an.Shape(v))
+		if ex, isEx := v.(*ssa.Extract); isEx {
+			if call, isCall := ex.Tuple.(*ssa.Call); isCall && len(call.Call.Args) > 0 {
+				for _, e := range an.VarArgs(call.Call.Args[len(call.Call.Args)-1]) {
+					shape += " " + clean(an.Shape(e))
+				}
+			}
+		}
+		if !strings.Contains(shape, "findCoordinator(") {
+			bad = append(bad, "the connection returned at "+p.Pos(ret.Pos())+" is not dialled from the answer: "+shape)
+		}
+	})
+	r.Check(nOK > 0 && len(bad) == 0, rule, "kafka.(*ConsumerGroup).coordinator dials the address FindCoordinator just returned, on every successful path", p.Pos(fn.Pos()),
+		"out := conn.findCoordinator(…); return connect(dialer, JoinHostPort(out.Coordinator.Host, out.Coordinator.Port))", strings.Join(bad, "; "))
 }
 
 // edgeConds renders, for each predecessor edge of b, the canonical condition that holds on it.
